@@ -65,6 +65,7 @@ Announce ==
            pm == Peers(store, t)
            out == E.out
        IN
+       /\ ("gated" \in DOMAIN E /\ E.gated) => Allows(E.h)
        /\ \A j \in 1..Len(out) : ("payload_ok" \in DOMAIN out[j]) => out[j].payload_ok
        /\ IF E.h \in DOMAIN Ann(c) /\ Ann(c)[E.h] # E.pid
           THEN \* a second peer id for the torrent is refused; the connection ends
@@ -153,12 +154,20 @@ Clean ==
           /\ pend' = [k \in {k \in DOMAIN PendAlive(news, pend) : pend[k] > E.now} |-> pend[k]]
     /\ UNCHANGED <<ann, cfg, list>>
 
+(* update_access_list: with mode off the file is not read and success is reported *)
 Reload ==
     /\ IsEvent("reload")
-    /\ IF E.file.kind = "good"
+    /\ IF cfg.mode = "off" THEN E.ok /\ list' = list
+       ELSE IF E.file.kind = "good"
        THEN E.ok /\ list' = SeqRange(E.file.hashes)
        ELSE ~E.ok /\ list' = list
     /\ UNCHANGED <<store, pend, ann, cfg>>
+
+(* an announce the gate refused: only for forbidden hashes, and nothing changes *)
+AnnounceRejected ==
+    /\ IsEvent("announce_rejected")
+    /\ ~Allows(E.t[2])
+    /\ UNCHANGED <<store, pend, ann, cfg, list>>
 
 Allowed ==
     /\ IsEvent("allowed")
@@ -188,7 +197,7 @@ DumpOK ==
         /\ WsDumpPend(E.dump) = {<<k[1], k[2], k[3], k[4], pend'[k]>> : k \in DOMAIN pend'}
         /\ E.ev = "clean" => {<<E.dump[i][1], E.dump[i][2]>> : i \in 1..Len(E.dump)} = DOMAIN store'
 
-Next == (Reset \/ Announce \/ Scrape \/ Close \/ Clean \/ Reload \/ Allowed) /\ DumpOK
+Next == (Reset \/ Announce \/ Scrape \/ Close \/ Clean \/ Reload \/ Allowed \/ AnnounceRejected) /\ DumpOK
 
 Spec == Init /\ [][Next]_vars
 
